@@ -455,6 +455,7 @@ func (c *c16Case) liveUtxos(chain []*c16Block) map[uint64]c16Elem {
 var c16Values = []types.Currency{
 	types.NewCurrency64(1), types.NewCurrency64(2), types.NewCurrency64(1000), types.Siacoins(1), types.Siacoins(300000),
 	types.NewCurrency64(^uint64(0)), types.NewCurrency(0, 1), types.NewCurrency(0, 1<<36),
+	types.ZeroCurrency, // a contract resolution can pay the wallet an output of value zero
 }
 
 var c16Addrs = []string{"foo.bar:9982", "baz.qux:9982", "host.example:9982"}
